@@ -17,7 +17,7 @@ RULE = ("reader: the full matrix dtype(10) x byte order(<,>,| for 1-byte types) 
         "astype(float64); Fortran-ordered and unsupported-dtype files (complex, bool, f2, unicode, timedelta) must be "
         "rejected by both. writer: for a shape of EVERY header length modulo 64 (1-27 axes) numpy.load must accept the "
         "file written by write_npy and return the same shape and bit-identical values; the model's structural theorem covers "
-        "all shapes. non-trivial = file with a non-f8 dtype or a non-default header spelling; headers aligned to 16 bytes (numpy <= 1.13) and not padded at all; data whose first bytes are spaces / line feeds; data whose last byte is an ASCII whitespace code")
+        "all shapes. non-trivial = file with a non-f8 dtype or a non-default header spelling; headers aligned to 16 bytes (numpy <= 1.13) and not padded at all; data whose first bytes are spaces / line feeds; data whose last byte is an ASCII whitespace code; hand-built files declaring fortran_order True with one and more axes")
 
 
 def check(rep, tier, seed):
@@ -99,6 +99,25 @@ def check(rep, tier, seed):
             rep.fail(kind="numpy-oracle", cls="npy-reader:binary:" + m["dtype"], case=label, argv=["sfs", "view", "-O", "npy"], stdin_hex=open(m["path"], "rb").read().hex()[:4000],
                      observed=(got or {"rc": rc, "stderr": se.decode(errors="replace")[-200:]}) if got is None else got[:300], expected=want[:300],
                      detail="`sfs view -O npy` on a file written by numpy does not give numpy's astype(float64) values back")
+    # Fortran order is refused whatever the number of axes (a one-axis array is laid out the same in both orders, but numpy
+    # never writes that header and the reader does not special-case it): hand-built, every version, several element types
+    fcases = []
+    for descr, code in (("<f8", "<d"), (">i2", ">h"), ("|u1", "B"), ("<i4", "<i")):
+        for shape in ([5], [1], [2, 3], [1, 1], [3, 1]):
+            n = 1
+            for x in shape:
+                n *= x
+            for major in (1, 2, 3):
+                dct = ("{'descr': '%s', 'fortran_order': True, 'shape': (%s), }" % (descr, "".join("%d, " % k for k in shape).rstrip() if len(shape) > 1 else "%d," % shape[0])).encode()
+                lw = 2 if major == 1 else 4
+                hdr = dct + b" " * ((-(6 + 2 + lw + len(dct) + 1)) % 64) + b"\n"
+                b = b"\x93NUMPY" + bytes([major, 0]) + (_s2.pack("<H", len(hdr)) if major == 1 else _s2.pack("<I", len(hdr))) + hdr + b"".join(_s2.pack(code, 1 + k) for k in range(n))
+                fcases.append("npyr %s" % b.hex()); fcases.append("read %s" % b.hex())
+    mo_f, outs_f = compare_cases(rep, "fortran-order-refused", fcases, nontrivial=lambda c, m: True, classify=lambda c, m, i: "npy-reader:fortran", spec=True)
+    for c, o in zip(dict.fromkeys(fcases), outs_f[False]):
+        if not o.startswith("ERR"):
+            rep.fail(kind="property-oracle", cls="npy-reader:fortran", case=c[:200], stdin_hex=c.split()[1], observed=o[:200], expected="ERR",
+                     detail="an npy file declaring fortran_order True was read (Fortran-ordered files are rejected with an error, for any number of axes)")
     # reader: axes longer than 65535 entries (shape entries are 64-bit numbers), hand-built as numpy lays files out
     def mk_npy(descr, shape, payload, major=1):
         dct = ("{'descr': '%s', 'fortran_order': False, 'shape': (%s), }" % (descr, "".join("%d, " % n for n in shape).rstrip() if len(shape) > 1 else "%d," % shape[0])).encode()
